@@ -28,6 +28,8 @@ RULE = ("seeded scripts of {accrue after dt, query after dt, accrue again at the
         "(set directly, via leveraged spot purchases, or alongside a margined position), rates in (-0.05,0.25), markups >= 0, "
         "intervals from 1 s to 40 years; every credited amount is compared with a 50-digit decimal model, and twin accounts "
         "(single accrual / no queries and no rejected calls / no futures position) are compared with the primary. "
+        "One run in six is an environment-level episode (spot contracts, rate events, markup, idle and borrowed cash): the interest "
+        "each rebalance reports over constant-rate stretches equals the model, and the rate book is 0 until the first rate event. "
         "Non-trivial: >=2 accruals over a positive interval and >=1 probe; distinct = distinct (op-kind sequence, cash sign, "
         "rate-vs-markup regime, interval magnitude classes)")
 ASSUMPTIONS = [
@@ -40,7 +42,8 @@ COMPONENTS = {"real": ["Broker.accrued_interest", "Broker.rebalance", "Broker.tr
               "harness": ["50-digit decimal interest model", "twin accounts"], "stub": []}
 PROBE_FLOORS = {"negative_cash": 200, "floor_positive_cash_negative_net_rate": 50, "sub_day_interval": 200,
                 "multi_decade_interval": 50, "five_or_more_cuts": 100, "query_between_cuts": 200,
-                "backwards_time_rejected": 200, "margined_position_alongside": 100, "empty_rebalance_accrual": 100}
+                "backwards_time_rejected": 200, "margined_position_alongside": 100, "empty_rebalance_accrual": 100,
+                "env_level_interest_checked": 300, "rate_book_zero_before_first_rate_event": 100}
 getcontext().prec = 50
 
 
@@ -58,7 +61,101 @@ def model_amount(balance, rate, markup, secs):
     return v
 
 
+EPI_PROFILE = {
+    "n_min": 3, "n_max": 10, "c_min": 1, "c_max": 2, "p_bar": 1.0, "extras_max": 3, "extra_kinds": ["nbbo", "custom"],
+    "p_sparse_grid": 0.0, "p_folds": 0.0, "p_markov": 0.0, "p_warmup": 0.0, "delays": [0, 0, 1],
+    "contract_kinds": ["ETF", "spot"], "p_with_cash": 0.0, "p_rate": 0.0, "spaces": ["box"], "box_bounds": [(-1.0, 2.0)],
+    "latencies": [0], "grid_styles": ["daily", "regular", "irregular"], "fixed_fees": [0, 0.01],
+}
+
+
+def generate_epi(rng, i):
+    """Environment-level clause: interest reported per rebalance over constant-rate
+    stretches of an episode, and a rate book that is 0 until the first rate event."""
+    from tesim import gen_epi
+    env = gen_epi.gen_env(rng, EPI_PROFILE)
+    env["fees"]["markup"] = rng.choice([0.0, 0.005, 0.02])
+    grid = env["grid"]
+    first = rng.randint(0, len(grid) - 1)
+    r = rng.choice([0.01, 0.05, -0.01, 0.2])
+    for k, g in enumerate(grid):
+        if k < first:
+            continue
+        if k == first or rng.random() < 0.25:
+            if k != first and rng.random() < 0.6:
+                r = rng.choice([0.0, 0.02, 0.1, -0.02])
+            env["events"].append({"t": g, "type": "rate", "r": r, "id": 5000 + k})
+    script = gen_epi.full_episode_script(rng, env)
+    for op in script:
+        if op["op"] == "step" and rng.random() < 0.3:
+            op["action"] = [rng.choice([0.0, 1.5, 2.0])] + [0.0] * (len(op["action"]) - 1)     # idle or borrowed cash
+    return {"kind": "epi", "envs": [env], "clock0": "1999-01-01T00:00:00", "script": script, "prng": rng.randrange(2 ** 31)}
+
+
+def execute_epi(scenario):
+    from tesim import epi, epicheck
+    sim = epi.run_scenario(scenario)
+    env_spec = scenario["envs"][0]
+    violations, probes, violate, probe = epicheck.mk_violation_sink()
+    h = sim.handles[0]
+    markup = env_spec["fees"].get("markup", 0.0)
+    rate_events = sorted(core.parse_t(e["t"]) for e in env_spec["events"] if e["type"] == "rate")
+    n_judged = 0
+    for ep in h.episodes:
+        if ep["failed"]:
+            break
+        rb = ep["reset"]["books"]["__rate__"]
+        had_rate = any(t <= ep["reset"]["now"] for t in rate_events)
+        if not had_rate:
+            probe("rate_book_zero_before_first_rate_event")
+            if rb[0] != 0.0 or rb[1] != 0.0:
+                violate("rate_book_initial", "the rate book is {} although no rate event has been delivered".format(rb), kind="initial")
+        prev = None
+        rates_seen = []
+        for r in sim.sink.records:
+            if r.get("env") != 0 or not (ep["reset"]["seq"] < r["seq"]):
+                continue
+            if r["kind"] == "step" and "books" in r:
+                rates_seen.append(r["books"]["__rate__"][0])
+            if r["kind"] != "EXEC" or r.get("rebalancing", {}).get("post") is None:
+                continue
+            reb = r["rebalancing"]
+            rate_now = r["books"]["__rate__"][0]
+            if prev is not None:
+                cash = prev["post"]["nr"].get("USD", 0.0)
+                secs = (reb["time"] - prev["time"]).total_seconds()
+                constant = all(x == rate_now for x in rates_seen) and prev_rate == rate_now
+                if constant:
+                    m = model_amount(cash, rate_now, markup, secs)
+                    tol = D("1e-12") * abs(D(cash)) + D("1e-11") * abs(m) + D("1e-300")
+                    if abs(D(reb["interest"]) - m) > tol:
+                        violate("amount", "rebalance at {}: reported interest {} on cash {} over {} s at rate {} markup {}: expected {}".format(
+                            reb["time"], reb["interest"], cash, secs, rate_now, markup, float(m)), regime="env")
+                        break
+                    n_judged += 1
+                    if cash < 0:
+                        probe("negative_cash")
+                    probe("env_level_interest_checked")
+                    got_cash = reb["pre"]["nr"].get("USD", 0.0)
+                    if abs(got_cash - (cash + reb["interest"])) > 1e-9 * max(1.0, abs(cash)):
+                        violate("not_credited", "cash before the trades {} != previous cash {} + reported interest {}".format(got_cash, cash, reb["interest"]), kind="env_credit")
+                        break
+            else:
+                if reb["interest"] != 0:
+                    violate("amount", "the first rebalance of an episode reports interest {} (its accrual period has zero length)".format(reb["interest"]), regime="first")
+                    break
+            prev = reb
+            prev_rate = rate_now
+            rates_seen = []
+    trace = "epi|n{}|m{}|r{}|j{}".format(len(env_spec["grid"]), markup, len(rate_events), n_judged)
+    sim.stats["accruals"] = n_judged
+    return {"violations": violations, "digest": core.digest(sim.log_for_digest()), "probes": probes, "faults": sim.faults,
+            "stats": sim.stats, "trace": trace, "nontrivial": n_judged >= 2 and len(probes) >= 1}
+
+
 def generate(rng, i):
+    if i % 6 == 5:
+        return generate_epi(rng, i)
     rate = rng.choice([0.0, 0.01, 0.05, 0.2, -0.02, 0.2499, round(rng.uniform(-0.05, 0.249), 5)])
     markup = rng.choice([0.0, 0.0, 0.005, 0.03, round(rng.uniform(0, 0.06), 4)])
     if 1 + rate - markup <= 0.01:
@@ -125,6 +222,8 @@ class Account(object):
 
 def execute(scenario):
     sc = scenario
+    if sc.get("kind") == "epi":
+        return execute_epi(sc)
     with core.sim_context():
         return _execute(sc)
 
@@ -320,6 +419,9 @@ def _execute(sc):
 
 
 def describe(scenario):
+    if scenario.get("kind") == "epi":
+        from tesim import gen_epi
+        return gen_epi.describe(scenario)
     return {k: scenario[k] for k in ("cash", "rate", "markup", "setup", "script")}
 
 
@@ -329,6 +431,8 @@ def shrink_paths(scenario):
 
 def simplify(scenario):
     import copy
+    if scenario.get("kind") == "epi":
+        return
     if scenario["setup"] != "deposit":
         c = copy.deepcopy(scenario)
         c["setup"] = "deposit"
